@@ -635,3 +635,298 @@ Proof.
   intros HB Hev Hp Hc. rewrite <- (recv_in_order_exactly_once B evs HB Hev).
   unfold queue_dgs. rewrite Hp, Hc. cbn. now rewrite app_nil_r.
 Qed.
+
+(* ------------------------------------------------------------------ the monitor is the property *)
+(* A history as the observer sees it: every event paired with what was observed for it. *)
+Definition hist := list (ev * obs).
+
+(* the events the property speaks about: those before the first Close *)
+Fixpoint live (evs : list ev) : list ev :=
+  match evs with
+  | [] => []
+  | Close :: _ => []
+  | e :: r => e :: live r
+  end.
+
+(* the datagrams that arrived during [h] and fit a buffer of size B, in order of arrival *)
+Definition arrived (B : N) (h : hist) : list tdg := filter (fits B) (arrivals_of (map fst h)).
+
+(* the datagrams handed to QUIC during [h], in order: the slots of every Ready poll that had
+   at least one buffer *)
+Definition handed (h : hist) : list tdg :=
+  flat_map (fun x => match x with
+                     | (Poll (_ :: _), OPoll (Ready sl) _ _) => flat_map slot_dgs sl
+                     | _ => []
+                     end) h.
+
+(* the poller is waiting after [h]: the last step of [h] other than polls without buffers is a
+   poll (with at least one buffer) that returned Pending *)
+Definition waiting (h : hist) : Prop :=
+  exists h1 h2 bufs reg p,
+    h = h1 ++ (Poll bufs, OPoll Pending reg p) :: h2 /\ bufs <> [] /\
+    Forall (fun x => fst x = Poll []) h2.
+
+(* what must hold of observation [o] of event [e] made after history [h] *)
+Definition step_ok (B : N) (h : hist) (e : ev) (o : obs) : Prop :=
+  match e, o with
+  | Arrive _, OArrive woken => waiting h -> woken = true
+  | Poll [], OPoll _ _ _ => True
+  | Poll (_ :: _), OPoll (Ready slots) _ _ =>
+      slots <> [] /\ Forall (fun sl => s_len sl = len (s_data sl)) slots /\
+      exists rest, arrived B h = handed h ++ flat_map slot_dgs slots ++ rest
+  | Poll (_ :: _), OPoll Pending reg _ => reg = true /\ handed h = arrived B h
+  | _, _ => False
+  end.
+
+(* every event before the first Close has an observation (exactly one each when the queue is
+   never closed), and every such observation is right given the history before it *)
+Definition spec (B : N) (evs : list ev) (os : list obs) : Prop :=
+  (In Close evs -> (length (live evs) <= length os)%nat) /\
+  (~ In Close evs -> length os = length evs) /\
+  forall h e o tl, combine (live evs) os = h ++ (e, o) :: tl -> step_ok B h e o.
+
+(* ---- list facts ---- *)
+Lemma tdg_eqb_eq a b : tdg_eqb a b = true -> a = b.
+Proof.
+  destruct a, b. unfold tdg_eqb. cbn [fst snd]. intros H. apply andb_prop in H as [H1 H2].
+  apply N.eqb_eq in H1. apply bytes_eqb_eq in H2. congruence.
+Qed.
+
+Lemma tdg_list_eqb_iff a b : list_eqb tdg_eqb a b = true <-> a = b.
+Proof.
+  split.
+  - apply list_eqb_eq. exact tdg_eqb_eq.
+  - intros ->. apply list_eqb_refl. exact tdg_eqb_refl.
+Qed.
+
+Lemma is_prefix_iff : forall a b, is_prefix a b = true <-> exists rest, b = a ++ rest.
+Proof.
+  induction a as [|x a IH]; intros b; cbn [is_prefix].
+  - split; [intros _; now exists b|reflexivity].
+  - destruct b as [|y b].
+    + split; [discriminate|intros [r H]; discriminate].
+    + rewrite andb_true_iff, IH. split.
+      * intros [H [r ->]]. apply tdg_eqb_eq in H. subst y. now exists r.
+      * intros [r H]. cbn in H. injection H as -> ->. split; [apply tdg_eqb_refl|now exists r].
+Qed.
+
+Lemma snoc_split {A} (h h1 h2 : list A) x y :
+  h ++ [x] = h1 ++ y :: h2 ->
+  (h2 = [] /\ h = h1 /\ x = y) \/ (exists h2', h2 = h2' ++ [x] /\ h = h1 ++ y :: h2').
+Proof.
+  induction h2 as [|z h2' _] using rev_ind; intros H.
+  - left. apply (app_inj_tail h h1 x y) in H. tauto.
+  - right. exists h2'.
+    assert (H' : h ++ [x] = (h1 ++ y :: h2') ++ [z]) by (rewrite H, <- app_assoc; reflexivity).
+    apply app_inj_tail in H' as [-> ->]. auto.
+Qed.
+
+Lemma forallb_slot_ok l :
+  forallb (fun sl => N.eqb (s_len sl) (len (s_data sl))) l = true <->
+  Forall (fun sl => s_len sl = len (s_data sl)) l.
+Proof.
+  rewrite forallb_forall, Forall_forall. split; intros H x Hx; specialize (H x Hx); now apply N.eqb_eq.
+Qed.
+
+(* ---- the ghost state of [mon] along a history ---- *)
+Lemma arrived_snoc B h e o :
+  arrived B (h ++ [(e, o)]) =
+  arrived B h ++ match e with Arrive it => filter (fits B) (item_dgs it) | _ => [] end.
+Proof.
+  unfold arrived, arrivals_of. rewrite map_app, flat_map_app, filter_app. cbn [map fst flat_map].
+  rewrite app_nil_r. destruct e; reflexivity.
+Qed.
+
+Lemma handed_snoc h x :
+  handed (h ++ [x]) = handed h ++ match x with
+                                  | (Poll (_ :: _), OPoll (Ready sl) _ _) => flat_map slot_dgs sl
+                                  | _ => []
+                                  end.
+Proof. unfold handed. rewrite flat_map_app. cbn [flat_map]. now rewrite app_nil_r. Qed.
+
+Lemma waiting_snoc_pending h bufs reg p :
+  bufs <> [] -> waiting (h ++ [(Poll bufs, OPoll Pending reg p)]).
+Proof. intros Hb. exists h, [], bufs, reg, p. repeat split; [exact Hb|constructor]. Qed.
+
+Lemma waiting_snoc_empty h o : waiting (h ++ [(Poll [], o)]) <-> waiting h.
+Proof.
+  split.
+  - intros (h1 & h2 & bufs & reg & p & E & Hb & HF).
+    apply snoc_split in E as [(_ & _ & E)|(h2' & -> & ->)].
+    + injection E as <- _. now elim Hb.
+    + apply Forall_app in HF as [HF _]. now exists h1, h2', bufs, reg, p.
+  - intros (h1 & h2 & bufs & reg & p & -> & Hb & HF).
+    exists h1, (h2 ++ [(Poll [], o)]), bufs, reg, p. rewrite <- app_assoc. repeat split; [exact Hb|].
+    apply Forall_app. split; [exact HF|]. constructor; [reflexivity|constructor].
+Qed.
+
+(* a step that is neither a Pending poll nor a poll without buffers ends the waiting *)
+Lemma waiting_snoc_other h e o :
+  e <> Poll [] -> (forall bufs reg p, (e, o) <> (Poll bufs, OPoll Pending reg p)) ->
+  ~ waiting (h ++ [(e, o)]).
+Proof.
+  intros He Hx (h1 & h2 & bufs & reg & p & E & Hb & HF).
+  apply snoc_split in E as [(_ & _ & E)|(h2' & -> & _)].
+  - eapply Hx; eauto.
+  - apply Forall_app in HF as [_ HF]. inversion HF as [|? ? H1 _]; subst. cbn in H1. contradiction.
+Qed.
+
+(* ---- unfolding [spec] by one event ---- *)
+Definition steps_ok (B : N) (hpre : hist) (evs : list ev) (os : list obs) : Prop :=
+  forall h e o tl, combine (live evs) os = h ++ (e, o) :: tl -> step_ok B (hpre ++ h) e o.
+
+Definition len_ok (evs : list ev) (os : list obs) : Prop :=
+  (In Close evs -> (length (live evs) <= length os)%nat) /\ (~ In Close evs -> length os = length evs).
+
+Lemma steps_ok_cons B hpre e evs o os : e <> Close ->
+  steps_ok B hpre (e :: evs) (o :: os) <->
+  step_ok B hpre e o /\ steps_ok B (hpre ++ [(e, o)]) evs os.
+Proof.
+  intros He. unfold steps_ok.
+  assert (Hl : live (e :: evs) = e :: live evs) by (destruct e; try reflexivity; now elim He).
+  rewrite Hl. cbn [combine]. split.
+  - intros H. split.
+    + specialize (H [] e o (combine (live evs) os) eq_refl). now rewrite app_nil_r in H.
+    + intros h e0 o0 tl E. rewrite <- app_assoc. cbn [app]. apply (H ((e, o) :: h) e0 o0 tl).
+      cbn [app]. now rewrite E.
+  - intros [H0 H] h e0 o0 tl E. destruct h as [|x h]; cbn [app] in E.
+    + injection E as <- <- _. now rewrite app_nil_r.
+    + injection E as <- E. specialize (H h e0 o0 tl E). rewrite <- app_assoc in H. exact H.
+Qed.
+
+Lemma len_ok_cons e evs o os : e <> Close -> len_ok (e :: evs) (o :: os) <-> len_ok evs os.
+Proof.
+  intros He. unfold len_ok.
+  assert (Hl : live (e :: evs) = e :: live evs) by (destruct e; try reflexivity; now elim He).
+  rewrite Hl. cbn [length In].
+  assert (Hin : e = Close \/ In Close evs <-> In Close evs) by (split; [intros [H|H]; [now elim He|exact H]|auto]).
+  rewrite Hin. split; intros [H1 H2]; split; intros H; [specialize (H1 H)|specialize (H2 H)|specialize (H1 H)|specialize (H2 H)]; lia.
+Qed.
+
+Lemma close_dec (evs : list ev) : In Close evs \/ ~ In Close evs.
+Proof.
+  induction evs as [|e evs IH]; [right; intros []|].
+  destruct e; cbn [In]; try (left; left; reflexivity);
+    (destruct IH as [H|H]; [left; right; exact H|right; intros [H'|H']; [discriminate|contradiction]]).
+Qed.
+
+Lemma len_ok_nil_r e evs : e <> Close -> ~ len_ok (e :: evs) [].
+Proof.
+  intros He [H1 H2].
+  assert (Hl : live (e :: evs) = e :: live evs) by (destruct e; try reflexivity; now elim He).
+  rewrite Hl in H1. cbn [length] in *.
+  destruct (close_dec (e :: evs)) as [H|H].
+  - specialize (H1 H). lia.
+  - specialize (H2 H). discriminate.
+Qed.
+
+(* ---- [mon] is [len_ok] and [steps_ok] ---- *)
+Lemma mon_spec_gen B : forall evs os hpre wt,
+  (wt = true <-> waiting hpre) ->
+  (mon B evs os (arrived B hpre) (handed hpre) wt = true <-> len_ok evs os /\ steps_ok B hpre evs os).
+Proof.
+  induction evs as [|e evs IH]; intros os hpre wt Hw.
+  - destruct os as [|o os]; cbn [mon].
+    + split; [intros _|reflexivity]. split.
+      * split; [intros []|reflexivity].
+      * intros h e o tl E. cbn in E. destruct h; discriminate.
+    + split; [discriminate|]. intros [[_ H] _]. specialize (H (fun x => x)). discriminate.
+  - destruct e as [it|bufs|].
+    + (* arrival *)
+      destruct os as [|o os]; cbn [mon].
+      * split; [discriminate|]. intros [H _]. exfalso. eapply len_ok_nil_r; [|exact H]. discriminate.
+      * rewrite len_ok_cons, steps_ok_cons by discriminate.
+        destruct o as [w|r reg p|w]; cbn [step_ok]; try (split; [discriminate|tauto]).
+        rewrite andb_true_iff.
+        specialize (IH os (hpre ++ [(Arrive it, OArrive w)]) false).
+        rewrite arrived_snoc, handed_snoc, app_nil_r in IH. rewrite IH.
+        -- assert (Hs : (if wt then w else true) = true <-> (waiting hpre -> w = true)).
+           { destruct wt; [tauto|]. split; [|reflexivity]. intros _ Hx. apply Hw in Hx. discriminate. }
+           tauto.
+        -- split; [discriminate|]. intros Hx. exfalso. revert Hx. apply waiting_snoc_other; discriminate.
+    + (* poll *)
+      destruct bufs as [|b bs].
+      * destruct os as [|o os]; cbn [mon].
+        -- split; [discriminate|]. intros [H _]. exfalso. eapply len_ok_nil_r; [|exact H]. discriminate.
+        -- rewrite len_ok_cons, steps_ok_cons by discriminate.
+           destruct o as [w|r reg p|w]; cbn [step_ok]; try (split; [discriminate|tauto]).
+           specialize (IH os (hpre ++ [(Poll [], OPoll r reg p)]) wt).
+           rewrite arrived_snoc, handed_snoc, !app_nil_r in IH. rewrite IH; [tauto|].
+           rewrite waiting_snoc_empty. exact Hw.
+      * destruct os as [|o os]; cbn [mon].
+        -- split; [discriminate|]. intros [H _]. exfalso. eapply len_ok_nil_r; [|exact H]. discriminate.
+        -- rewrite len_ok_cons, steps_ok_cons by discriminate.
+           destruct o as [w|r reg p|w]; cbn [step_ok]; try (split; [discriminate|tauto]).
+           destruct r as [slots| | |]; try (split; [discriminate|tauto]).
+           ++ rewrite !andb_true_iff, forallb_slot_ok, is_prefix_iff.
+              specialize (IH os (hpre ++ [(Poll (b :: bs), OPoll (Ready slots) reg p)]) false).
+              rewrite arrived_snoc, handed_snoc, app_nil_r in IH. rewrite IH.
+              ** assert (Hn : negb (match slots with [] => true | _ => false end) = true <-> slots <> [])
+                   by (destruct slots; cbn; split; [discriminate|congruence|discriminate|reflexivity]).
+                 rewrite Hn.
+                 assert (Hp : (exists rest, arrived B hpre = (handed hpre ++ flat_map slot_dgs slots) ++ rest) <->
+                              (exists rest, arrived B hpre = handed hpre ++ flat_map slot_dgs slots ++ rest))
+                   by (split; intros [r Hr]; exists r; now rewrite Hr, ?app_assoc).
+                 rewrite Hp. tauto.
+              ** split; [discriminate|]. intros Hx. exfalso. revert Hx. apply waiting_snoc_other; discriminate.
+           ++ rewrite !andb_true_iff, tdg_list_eqb_iff.
+              specialize (IH os (hpre ++ [(Poll (b :: bs), OPoll Pending reg p)]) true).
+              rewrite arrived_snoc, handed_snoc, !app_nil_r in IH. rewrite IH; [tauto|].
+              split; [intros _|reflexivity]. apply waiting_snoc_pending. discriminate.
+    + (* close: nothing is required from here on *)
+      cbn [mon]. split; [intros _|reflexivity]. split.
+      * split; [intros _; cbn; lia|]. intros H. exfalso. apply H. now left.
+      * intros h e o tl E. cbn in E. destruct h; discriminate.
+Qed.
+
+Lemma not_waiting_nil : ~ waiting [].
+Proof. intros (h1 & h2 & bufs & reg & p & E & _). destruct h1; discriminate. Qed.
+
+Lemma mon_spec B evs os : mon B evs os [] [] false = true <-> spec B evs os.
+Proof.
+  pose proof (mon_spec_gen B evs os [] false) as H. cbn in H. rewrite H.
+  - unfold spec, len_ok, steps_ok. cbn [app]. tauto.
+  - split; [discriminate|]. intros Hx. exfalso. exact (not_waiting_nil Hx).
+Qed.
+
+Lemma uniform_intro evs B : buf_sizes evs <> [] -> Forall (eq B) (buf_sizes evs) -> uniform evs = Some B.
+Proof.
+  unfold uniform. destruct (buf_sizes evs) as [|b bs]; [congruence|]. intros _ H.
+  inversion H as [|? ? Hb Hbs]; subst.
+  assert (E : forallb (N.eqb b) bs = true).
+  { apply forallb_forall. intros x Hx. rewrite Forall_forall in Hbs. apply N.eqb_eq. now apply Hbs. }
+  now rewrite E.
+Qed.
+
+Lemma monitor_spec (i : input) (o : output) B :
+  Forall (fun e => wf_ev e = true) i ->
+  buf_sizes i <> [] -> Forall (eq B) (buf_sizes i) -> B <= U64_MAX ->
+  (monitor i o = true <-> spec B i o).
+Proof.
+  intros Hwf Hne HB HU. unfold monitor.
+  assert (E1 : forallb wf_ev i = true) by (apply forallb_forall; now apply Forall_forall).
+  rewrite E1, (uniform_intro i B Hne HB). cbn [negb].
+  destruct (U64_MAX <? B) eqn:E2; [lia|]. apply mon_spec.
+Qed.
+
+(* outside the quantifier the monitor accepts everything *)
+Lemma monitor_outside (i : input) (o : output) :
+  (forallb wf_ev i = false \/ uniform i = None) -> monitor i o = true.
+Proof. unfold monitor. intros [->| ->]; [reflexivity|]. now destruct (negb (forallb wf_ev i)). Qed.
+
+(* the hypotheses are satisfiable and the statement has content: the model's run of
+   [ex_hist] satisfies it; the same run with the first poll answering Pending (a wedge: three
+   datagrams queued, one of them fits) does not. *)
+Example ex_spec_holds : spec 3 ex_hist (model ex_hist).
+Proof.
+  apply monitor_spec; [repeat constructor|discriminate|repeat constructor|vm_compute; discriminate|].
+  apply model_monitor.
+Qed.
+
+Example ex_spec_rejects_wedge :
+  ~ spec 3 ex_hist [OArrive false; OArrive false; OArrive false; OPoll Pending true None;
+                    OPoll Pending true None; OPoll Pending true None].
+Proof.
+  intros H. apply monitor_spec in H; [|repeat constructor|discriminate|repeat constructor|vm_compute; discriminate].
+  vm_compute in H. discriminate.
+Qed.
